@@ -40,7 +40,11 @@ impl AtomicCounter {
     /// the last flush.
     pub fn flush(&self) -> (u64, u64) {
         let current = self.current.load(Acquire);
+        #[cfg(metrics_verif)]
+        metrics::__verif::point("dsd.counter.flush.current_loaded");
         let last = self.last.swap(current, AcqRel);
+        #[cfg(metrics_verif)]
+        metrics::__verif::point("dsd.counter.flush.last_swapped");
         let delta = current.wrapping_sub(last);
         let updates = self.updates.swap(0, AcqRel);
 
@@ -51,7 +55,11 @@ impl AtomicCounter {
 impl CounterFn for AtomicCounter {
     fn increment(&self, value: u64) {
         self.is_absolute.store(false, Release);
+        #[cfg(metrics_verif)]
+        metrics::__verif::point("dsd.counter.inc.mode_stored");
         self.current.fetch_add(value, Relaxed);
+        #[cfg(metrics_verif)]
+        metrics::__verif::point("dsd.counter.inc.current_added");
         self.updates.fetch_add(1, Relaxed);
     }
 
@@ -61,10 +69,16 @@ impl CounterFn for AtomicCounter {
         // two consecutive absolute values, since otherwise we might be calculating a delta between a `last` of 0 and a
         // very large `current` value.
         if !self.is_absolute.swap(true, Release) {
+            #[cfg(metrics_verif)]
+            metrics::__verif::point("dsd.counter.abs.mode_swapped");
             self.last.store(value, Release);
+            #[cfg(metrics_verif)]
+            metrics::__verif::point("dsd.counter.abs.last_stored");
         }
 
         self.current.store(value, Release);
+        #[cfg(metrics_verif)]
+        metrics::__verif::point("dsd.counter.abs.current_stored");
         self.updates.fetch_add(1, Relaxed);
     }
 }
@@ -83,6 +97,8 @@ impl AtomicGauge {
     /// Flushes the current gauge value and the number of updates since the last flush.
     pub fn flush(&self) -> (f64, u64) {
         let current = f64::from_bits(self.inner.load(Acquire));
+        #[cfg(metrics_verif)]
+        metrics::__verif::point("dsd.gauge.flush.value_loaded");
         let updates = self.updates.swap(0, AcqRel);
 
         (current, updates)
@@ -112,6 +128,8 @@ impl GaugeFn for AtomicGauge {
 
     fn set(&self, value: f64) {
         self.inner.store(value.to_bits(), Release);
+        #[cfg(metrics_verif)]
+        metrics::__verif::point("dsd.gauge.update.value_stored");
         self.updates.fetch_add(1, Relaxed);
     }
 }
